@@ -488,6 +488,11 @@ impl ProtocolSet {
 /// Verification hooks: public wrappers of the crate-private connection reports.
 #[cfg(feature = "verif")]
 impl ProtocolSet {
+    /// A weak observer of this connection's command channel.
+    pub fn verif_alive_probe(&self) -> crate::protocol::connection::VerifAliveProbe {
+        self.connection.verif_alive_probe()
+    }
+
     pub async fn verif_report_connection_established(
         &mut self,
         peer: PeerId,
